@@ -72,6 +72,29 @@ def assign_value(stmt, target, where):
     return stmt.value
 
 
+def byte_hole(g, stmt, template, name, where):
+    """`stmt` must contain exactly one one-byte bytes literal; it becomes the integer definition `name`, the rest of
+    the statement must read `template` (with __B__ for the literal)"""
+    consts = [n for n in ast.walk(stmt) if isinstance(n, ast.Constant) and isinstance(n.value, bytes)]
+    if len(consts) != 1 or len(consts[0].value) != 1:
+        raise Unsupported("%s: expected exactly one one-byte literal in %r" % (where, ast.unparse(stmt)))
+    val = consts[0].value[0]
+
+    class T(ast.NodeTransformer):
+        def visit_Constant(self, n):
+            return ast.Name(id="__B__", ctx=ast.Load()) if isinstance(n.value, bytes) else n
+    got = ast.unparse(ast.fix_missing_locations(T().visit(copy.deepcopy(stmt))))
+    if got != template:
+        raise Unsupported("%s: expected %r, found %r" % (where, template, got))
+    g.add(fn(name, [], ret(ast.Constant(value=val))))
+
+
+def sig_is(f, text, where):
+    got = ast.unparse(f.args)
+    if got != text or f.decorator_list:
+        raise Unsupported("%s: signature changed: %r (expected %r)" % (where, got, text))
+
+
 def find_nested_func(tree, name):
     fs = [n for n in ast.walk(tree) if isinstance(n, ast.FunctionDef) and n.name == name]
     if not fs:
@@ -145,6 +168,23 @@ def gen_rand(util, keys):
     # PRNG: pinned text of the block generator
     f = find_func(util, "block_generator", cls="PRNG")
     expect(strip_doc(f.body), ["counter = 0", "while True:\n    for byte in sha256(('prng-%d-%s' % (counter, seed)).encode()).digest():\n        yield byte\n    counter += 1"], "PRNG.block_generator")
+    prng = [n for n in util.body if isinstance(n, ast.ClassDef) and n.name == "PRNG"]
+    if len(prng) != 1 or prng[0].bases or prng[0].keywords or prng[0].decorator_list:
+        raise Unsupported("class PRNG: not found or bases/decorators changed")
+    meths = [m.name for m in prng[0].body if isinstance(m, ast.FunctionDef)]
+    if meths != ["__init__", "__call__", "block_generator"]:
+        raise Unsupported("class PRNG: methods changed: %r" % meths)
+    f = find_func(util, "__init__", cls="PRNG")
+    sig_is(f, "self, seed", "PRNG.__init__")
+    expect(strip_doc(f.body), ["self.generator = self.block_generator(seed)"], "PRNG.__init__")
+    f = find_func(util, "__call__", cls="PRNG")
+    sig_is(f, "self, numbytes", "PRNG.__call__")
+    expect(strip_doc(f.body), ["a = [next(self.generator) for i in range(numbytes)]",
+                               "if PY2:\n    return ''.join(a)\nelse:\n    return bytes(a)"], "PRNG.__call__")
+    sig_is(find_func(util, "block_generator", cls="PRNG"), "self, seed", "PRNG.block_generator")
+    sig_is(find_func(util, "randrange"), "order, entropy=None", "randrange")
+    sig_is(find_func(util, "randrange_from_seed__trytryagain"), "seed, order", "randrange_from_seed__trytryagain")
+    sig_is(find_func(util, "randrange_from_seed__overshoot_modulo"), "seed, order", "randrange_from_seed__overshoot_modulo")
     # --- keys.py: generate and the nonce draw
     f = find_func(keys, "generate", cls="SigningKey")
     expect(strip_doc(f.body), ["secexp = randrange(curve.order, entropy)", "return cls.from_secret_exponent(secexp, curve, hashfunc)"], "SigningKey.generate")
@@ -185,6 +225,20 @@ def gen_rfc(rfc, keys):
     expect([b[1]], ["holen = hash_func().digest_size"], "generate_k")
     g.add(fn("generate_k_rolen", ["qlen"], ret(assign_value(b[2], "rolen", "generate_k"))))
     expect([b[3]], ["bx = (hmac_compat(number_to_string(secexp, order)), hmac_compat(bits2octets(data, order)), hmac_compat(extra_entropy))"], "generate_k")
+    sig_is(f, "order, secexp, hash_func, data, retry_gen=0, extra_entropy=b''", "generate_k")
+    sig_is(find_func(rfc, "bits2int"), "data, qlen", "bits2int")
+    sig_is(find_func(rfc, "bits2octets"), "data, order", "bits2octets")
+    if len(b) != 17:
+        raise Unsupported("generate_k: %d statements, the model transcribes 17 (sizes, bx, steps B-G, step H)" % len(b))
+    # steps B-G: the structure is pinned, the four byte constants are translated
+    byte_hole(g, b[4], "v = __B__ * holen", "generate_k_init_v_byte", "generate_k step B")
+    byte_hole(g, b[5], "k = __B__ * holen", "generate_k_init_k_byte", "generate_k step C")
+    expect([b[6]], ["k = hmac.new(k, digestmod=hash_func)"], "generate_k step D")
+    byte_hole(g, b[7], "k.update(v + __B__)", "generate_k_step_d_byte", "generate_k step D")
+    expect(b[8:12], ["for i in bx:\n    k.update(i)", "k = k.digest()", "v = hmac.new(k, v, hash_func).digest()",
+                     "k = hmac.new(k, digestmod=hash_func)"], "generate_k steps D-F")
+    byte_hole(g, b[12], "k.update(v + __B__)", "generate_k_step_f_byte", "generate_k step F")
+    expect(b[13:16], ["for i in bx:\n    k.update(i)", "k = k.digest()", "v = hmac.new(k, v, hash_func).digest()"], "generate_k steps F-G")
     loop = b[-1]
     if not isinstance(loop, ast.While) or ast.unparse(loop.test) != "True" or len(loop.body) != 6:
         raise Unsupported("generate_k: expected the final `while True` (step H) with 6 statements")
@@ -206,7 +260,8 @@ def gen_rfc(rfc, keys):
     if not (isinstance(acc.body[1], ast.AugAssign) and ast.unparse(acc.body[1].target) == "retry_gen"):
         raise Unsupported("generate_k step H3: expected an update of retry_gen")
     g.add(fn("generate_k_retry_next", ["retry_gen"], [copy.deepcopy(acc.body[1]), ast.Return(value=ast.Name(id="retry_gen", ctx=ast.Load()))]))
-    expect(loop.body[4:], ["k = hmac.new(k, v + b'\\x00', hash_func).digest()", "v = hmac.new(k, v, hash_func).digest()"], "generate_k step H3 (K, V update)")
+    byte_hole(g, loop.body[4], "k = hmac.new(k, v + __B__, hash_func).digest()", "generate_k_step_h_byte", "generate_k step H3 (K update)")
+    expect([loop.body[5]], ["v = hmac.new(k, v, hash_func).digest()"], "generate_k step H3 (V update)")
     # --- keys.py retry loop
     f = find_func(keys, "sign_digest_deterministic", cls="SigningKey")
     b = strip_doc(f.body)
